@@ -39,6 +39,25 @@ type DocPeer struct {
 	Retry   *DocRetry     `dials:"retry"` // a pointer-to-struct section inside a slice element: each element has its own
 }
 
+// DocSize is a defined int64 type with a text form of its own; DocCount a
+// plain one. Neither is a duration.
+type DocSize int64
+
+func (d *DocSize) UnmarshalText(b []byte) error {
+	n, ok := strings.CutSuffix(string(b), "MB")
+	if !ok {
+		return fmt.Errorf("size %q: want <n>MB", b)
+	}
+	v, err := strconv.ParseInt(n, 10, 64)
+	if err != nil {
+		return err
+	}
+	*d = DocSize(v << 20)
+	return nil
+}
+
+type DocCount int64
+
 type DocRetry struct {
 	Count   int           `dials:"count"`
 	Backoff time.Duration `dials:"backoff"`
@@ -103,7 +122,9 @@ type CfgDoc struct {
 	Deep DL1 `dials:"deep"`
 	DocEmb
 	Name     string                   `dials:"name"`
-	Éclair   string                   `dials:"eclair"` // exported: the first rune is an upper-case letter, not an ASCII one
+	Éclair   string                   `dials:"eclair"`  // exported: the first rune is an upper-case letter, not an ASCII one
+	Size     DocSize                  `dials:"size"`    // a defined integer type that unmarshals from text ("64MB")
+	Retries  DocCount                 `dials:"retries"` // a plain defined integer type
 	Count    int                      `dials:"count"`
 	Ratio    float64                  `dials:"ratio"`
 	On       bool                     `dials:"on"`
@@ -130,6 +151,8 @@ type CfgDoc struct {
 type DocVal struct {
 	Name       *string          `json:"name,omitempty"`
 	Eclair     *string          `json:"eclair,omitempty"`
+	SizeMB     *int             `json:"size_mb,omitempty"`
+	Retries    *int             `json:"retries,omitempty"`
 	Count      *int             `json:"count,omitempty"`
 	Ratio      *float64         `json:"ratio,omitempty"`
 	On         *bool            `json:"on,omitempty"`
@@ -197,6 +220,12 @@ func (g *gen) docVal(p int) DocVal {
 	}
 	if g.pct(p / 2) {
 		v.Eclair = sp(fmt.Sprintf("eclair%d", n))
+	}
+	if g.pct(p / 2) {
+		v.SizeMB = ip(1 + n%512)
+	}
+	if g.pct(p / 2) {
+		v.Retries = ip(n % 9)
 	}
 	if g.pct(p) {
 		v.Count = ip(n*7 + 1)
@@ -410,6 +439,12 @@ func (v *DocVal) expected(def *DocVal) *CfgDoc {
 		if l.Eclair != nil {
 			c.Éclair = *l.Eclair
 		}
+		if l.SizeMB != nil {
+			c.Size = DocSize(*l.SizeMB) << 20
+		}
+		if l.Retries != nil {
+			c.Retries = DocCount(*l.Retries)
+		}
 		if l.Count != nil {
 			c.Count = *l.Count
 		}
@@ -579,6 +614,12 @@ func (v *DocVal) fields(format string) (top []kv, limits []kv, in []kv, pin []kv
 	}
 	if v.Eclair != nil {
 		top = append(top, kv{"eclair", str(*v.Eclair)})
+	}
+	if v.SizeMB != nil {
+		top = append(top, kv{"size", str(fmt.Sprintf("%dMB", *v.SizeMB))})
+	}
+	if v.Retries != nil {
+		top = append(top, kv{"retries", strconv.Itoa(*v.Retries)})
 	}
 	if v.Count != nil {
 		top = append(top, kv{"count", strconv.Itoa(*v.Count)})
@@ -1285,7 +1326,7 @@ func (r *streamRun) checkUnset(format string, val reflect.Value, v *DocVal, doc 
 		return false, false
 	}
 	want := map[string]bool{
-		"Name": v.Name == nil, "Éclair": v.Eclair == nil, "Count": v.Count == nil, "Ratio": v.Ratio == nil, "On": v.On == nil, "Wait": v.WaitNS == nil,
+		"Name": v.Name == nil, "Éclair": v.Eclair == nil, "Size": v.SizeMB == nil, "Retries": v.Retries == nil, "Count": v.Count == nil, "Ratio": v.Ratio == nil, "On": v.On == nil, "Wait": v.WaitNS == nil,
 		"When": v.When == nil, "Tags": v.Tags == nil, "Nums": v.Nums == nil, "Limits": v.Limits == nil, "Set": v.Set == nil, "Eps": v.Eps == nil,
 		"In": v.InHost == nil && v.InPort == nil, "PIn": v.PInHost == nil && v.PInPort == nil && !v.PInEmpty, "IP": v.IP == nil, "Peers": v.Peers == nil, "Alt": v.Alt == nil, "Waits": v.WaitsNS == nil, "Timeouts": v.TimeoutNS == nil,
 		"DocEmb": v.EmbN == nil && v.EmbS == nil && v.EmbInHost == nil && v.EmbInPort == nil, "Whens": v.Whens == nil, "PWaits": v.PWaitsNS == nil, "Deep": v.DeepLabel == nil && v.DeepWaitNS == nil,
